@@ -568,7 +568,7 @@ def frees_param_summaries(P):
     if id(P) in _fp_cache:
         return _fp_cache[id(P)]
     rel = set(RELEASE)
-    for v in CTOR.values():
+    for v in list(CTOR.values()) + list(INIT.values()):
         rel |= v
     summ = {}
     changed = True
